@@ -162,7 +162,11 @@ impl Transformation<String> {
   pub fn used_vars(&self) -> &str {
     // NOTE: meta_var in transform always starts with `$`, for now
     let s = self.source();
-    s.strip_prefix("$$$").unwrap_or_else(|| &s[1..])
+    // an empty source or one starting with a multi-byte char must not panic here;
+    // a source that is not a meta variable is reported by `parse`
+    s.strip_prefix("$$$")
+      .or_else(|| s.strip_prefix('$'))
+      .unwrap_or(s)
   }
 }
 impl Transformation<MetaVariable> {
